@@ -117,6 +117,13 @@ SCHEMA = {
     },
 }
 
+DEP_ADDERS = ["pixee:python/use-defusedxml", "pixee:python/harden-pickle-load", "pixee:python/flask-enable-csrf-protection"]
+DEP_MANIFESTS = {
+    "requirements.txt": "requests==2.31.0\n# pinned\nflask>=2.0\n",
+    "pyproject.toml": '[project]\nname = "demo"\nversion = "0.1"\ndependencies = [\n    "requests>=2",\n]\n\n[tool.black]\nline-length = 100\n',
+    "setup.py": 'from setuptools import setup\n\nsetup(\n    name="demo",\n    version="0.1",\n    install_requires=[\n        "requests>=2",\n    ],\n)\n',
+    "setup.cfg": "[metadata]\nname = demo\n\n[options]\ninstall_requires =\n    requests>=2\n    flask\n\n[flake8]\nmax-line-length = 100\n",
+}
 NONASCII_NAMES = ["src/módulo_é.py", "src/日本.py", "src/emoji_😀.py"]
 
 
@@ -155,7 +162,16 @@ def run_shape(draw):
                 files.append(draw(progspace.program_case(cid, seeds, sast_seeds, max_parts=2)))
     extras = draw(st.lists(st.sampled_from(["bad-utf8", "syntax-error", "empty-py", "nonascii-path", "manifest", "nul-byte", "crlf-extra"]), max_size=3, unique=True))
     layout = draw(st.sampled_from(["normal"] * 6 + ["empty-dir", "non-py-only"]))
+    # one run in three needs a dependency: a detector-less dependency-adding codemod with its trigger, and one manifest of
+    # one of the four kinds at the project root or in a sub-directory (manifests are discovered with rglob); the manifest's
+    # changeset is subject to the same rules as any other (existing project-relative path, faithful diff, line numbers)
+    dep = None
+    if mode in ("plain", "mixed") and draw(st.integers(0, 2)) == 0:
+        dep = {"adder": draw(st.sampled_from(DEP_ADDERS)), "manifest": draw(st.sampled_from(sorted(DEP_MANIFESTS))), "where": draw(st.sampled_from(["", "", "deploy", "svc/api"]))}
+        ids = [c for c in ids if c != dep["adder"]]
+        ids.insert(draw(st.integers(0, len(ids))), dep["adder"])
     return {
+        "dep": dep if layout == "normal" else None,
         "codemods": ids,
         "files": files if layout == "normal" else [],
         "extras": extras if layout == "normal" else [],
@@ -192,6 +208,13 @@ def eval_shape(case, stats=None):
             extra_files["src/crlf_extra.py"] = trig.replace("\n", "\r\n")
         if "manifest" in case["extras"]:
             extra_files["requirements.txt"] = "requests\n"
+        if case.get("dep"):
+            from . import c14
+
+            dep = case["dep"]
+            extra_files.pop("requirements.txt", None)
+            extra_files["src/dep_app.py"] = c14.ADDERS[dep["adder"]][1]
+            extra_files[os.path.join(dep["where"], dep["manifest"])] = DEP_MANIFESTS[dep["manifest"]]
         if case["layout"] == "non-py-only":
             extra_files = {"notes.txt": "x = set([1])\n", "data.json": "{}"}
         proj, rels, res_argv = engine.build_project(root, case["codemods"], rendered, extra_files)
@@ -220,6 +243,9 @@ def eval_shape(case, stats=None):
     labels += ["has:" + k for k in sorted(kinds)]
     comp = "report"
     feats = sorted(set(["extra:" + e for e in case["extras"]] + ["layout:" + case["layout"]] + (["dry"] if case["dry"] else [])))
+    if case.get("dep"):
+        labels += ["dep:" + case["dep"]["manifest"], "dep-where:" + (case["dep"]["where"] or "root")]
+        feats = sorted(feats + ["dep:" + case["dep"]["manifest"], "dep-nested" if case["dep"]["where"] else "dep-root"])
 
     def viol(kind, detail, extra_feats=()):
         st_.violation(comp, kind, {"shape": case}, detail if isinstance(detail, str) else json.dumps(detail, default=str)[:4000], features=feats + list(extra_feats))
@@ -331,11 +357,24 @@ BUDGET = {"quick": 12, "thorough": 250}
 
 
 def shards(tier, seed):
-    return [{"n": BUDGET[tier], "seed": seed * 1000 + i} for i in range(16)]
+    return [{"n": BUDGET[tier], "seed": seed * 1000 + i, "cell": i, "vseed": seed} for i in range(16)]
+
+
+def dep_grid_case(cell, vseed):
+    """Deterministic grid under the random shapes: 4 manifest kinds x 4 placements (root, deploy/, svc/api/, deploy/ in a
+    dry run), one cell per shard; the adder and the companion codemod rotate with VERIF_SEED."""
+    kinds = sorted(DEP_MANIFESTS)
+    where = ["", "deploy", "svc/api", "deploy"][cell // 4]
+    adder = DEP_ADDERS[(cell + vseed) % len(DEP_ADDERS)]
+    ids = [adder, "pixee:python/use-set-literal"] if (cell + vseed) % 2 else ["pixee:python/use-set-literal", adder]
+    return {"codemods": ids, "files": [], "extras": ["crlf-extra"], "layout": "normal", "dry": cell // 4 == 3, "dirstyle": ["abs", "rel", "dot", "slash"][cell % 4],
+            "verbose": False, "dep": {"adder": adder, "manifest": kinds[cell % 4], "where": where}}
 
 
 def run_shard(spec):
     stats = core.Stats()
+    if "cell" in spec:
+        eval_shape(dep_grid_case(spec["cell"], spec.get("vseed", 1)), stats)
     core.drive(run_shape(), lambda c: eval_shape(c, stats), spec["n"], spec["seed"])
     return stats
 
